@@ -55,7 +55,7 @@ PROPS = {
         "rule": "random histories on the real SwitchPool (hooked fake clock, fake VPC client): 2-7 vSwitches over 3 zones with free counts incl. 0, "
                 "GetOne with all four policy values (ordered/most/random/empty), zone fallback on/off, candidate lists of 0-6 ids incl. duplicates and unknown ids, "
                 "Block, clock steps around the TTL boundary (ttl-1, ttl, ttl+1), cloud changes/removals, Add. Model predicts choice and caller slice for "
-                "ordered/most/default, validates the observed choice for random. non-trivial = history with at least one selection and one Block; distinct = distinct op sequence.",
+                "ordered/most/default, validates the observed choice for random; Go monitors on every selection: member of the list, zone, free addresses, not blocked, caller slice untouched, and for ordered / default no earlier eligible candidate. non-trivial = history with at least one selection and one Block; distinct = distinct op sequence.",
         "technique": "Lean 4 refinement of GetOne to a pure selection over resolved candidates (lookup stability under cache fills) + characterisation lemmas; differential correspondence + Go monitors",
         "level_text": "Theorems for all candidate lists, zones, free counts, policies and all cache/cloud states: choice is a member with free addresses, in the requested zone unless fallback and no in-zone candidate is eligible, "
                       "first eligible (ordered), maximal free (most), never an exhausted entry until its TTL passes, caller list unchanged. Tied to pkg/vswitch by differential histories on the real SwitchPool.",
